@@ -49,3 +49,53 @@ pub fn unhex(s: &str) -> Vec<u8> {
     let v = |c: u8| if c <= b'9' { c - b'0' } else { c - b'a' + 10 };
     (0..b.len() / 2).map(|i| v(b[2 * i]) * 16 + v(b[2 * i + 1])).collect()
 }
+
+/// Compact byte-string syntax of the line protocol: segments joined by `+`, each either plain hex
+/// or `hh*count` (a run of `count` >= 16 equal bytes).  Greedy and deterministic; the Lean driver
+/// implements the same algorithm.
+pub fn enc(bs: &[u8]) -> String {
+    let mut segs: Vec<String> = Vec::new();
+    let mut pend = String::new();
+    let mut i = 0;
+    while i < bs.len() {
+        let mut j = i;
+        while j < bs.len() && bs[j] == bs[i] {
+            j += 1;
+        }
+        if j - i >= 16 {
+            if !pend.is_empty() {
+                segs.push(std::mem::take(&mut pend));
+            }
+            segs.push(format!("{}*{}", hex(&bs[i..=i]), j - i));
+            i = j;
+        } else {
+            pend.push_str(&hex(&bs[i..=i]));
+            i += 1;
+        }
+    }
+    if !pend.is_empty() {
+        segs.push(pend);
+    }
+    segs.join("+")
+}
+
+pub fn dec(s: &str) -> Vec<u8> {
+    let mut out = Vec::new();
+    for seg in s.split('+').filter(|x| !x.is_empty()) {
+        if let Some((h, n)) = seg.split_once('*') {
+            let b = unhex(h)[0];
+            out.extend(std::iter::repeat(b).take(n.parse().unwrap()));
+        } else {
+            out.extend(unhex(seg));
+        }
+    }
+    out
+}
+
+pub fn sizes_str(v: &[usize]) -> String {
+    v.iter().map(|x| x.to_string()).collect::<Vec<_>>().join(",")
+}
+
+pub fn parse_sizes(s: &str) -> Vec<usize> {
+    s.split(',').filter(|x| !x.is_empty()).map(|x| x.parse().unwrap()).collect()
+}
